@@ -188,7 +188,35 @@ func (checker) KeyExtra(c modedit.Case) string {
 	return strings.Join(m.Dump(c.Work), "\n") + "\x00" + strings.Join(t, ",")
 }
 
+// FirstCalls is the menu of the fresh-process call-order check: short edit histories checked by the state oracle.
+func FirstCalls() []fw.Call {
+	var out []fw.Call
+	for i, c := range []modedit.Case{
+		{Seed: modedit.ModSeeds[1], SeedIdx: 1, Hist: []modedit.Op{{Kind: "AddRequire", A: []string{"b.com/y", "v1.1.0"}}}},
+		{Seed: modedit.ModSeeds[1], SeedIdx: 1, Hist: []modedit.Op{{Kind: "AddReplace", A: []string{"a.com/x", "", "../dir x", ""}}, {Kind: "DropRequire", A: []string{"a.com/x"}}}},
+		{Seed: modedit.ModSeeds[0], SeedIdx: 0, Hist: []modedit.Op{{Kind: "AddGoStmt", A: []string{"1.21"}}, {Kind: "AddExclude", A: []string{"a.com/x", "v1.0.0"}}}},
+		{Seed: modedit.ModSeeds[0], SeedIdx: 0, Hist: []modedit.Op{{Kind: "AddRetract", A: []string{"v1.0.0", "v1.1.0", "bad"}}}},
+		{Work: true, Seed: modedit.WorkSeeds[1], SeedIdx: 1, Hist: []modedit.Op{{Kind: "AddUse", A: []string{"./b", ""}}, {Kind: "DropUse", A: []string{"./a"}}}},
+		{Work: true, Seed: modedit.WorkSeeds[0], SeedIdx: 0, Hist: []modedit.Op{{Kind: "AddGodebug", A: []string{"panicnil", "1"}}}},
+	} {
+		i, c := i, c
+		c.Check = "state"
+		out = append(out, fw.Call{Name: fmt.Sprintf("history-%d %s", i, modedit.HistString(c.Hist)), F: func() string {
+			msg, nt := checker{}.State(c)
+			d, err := modedit.Replay(c.Work, c.Seed, c.Hist)
+			text := ""
+			if err == nil {
+				d.Cleanup()
+				text = d.Format()
+			}
+			return fmt.Sprint(msg, nt, err, text)
+		}})
+	}
+	return out
+}
+
 func Run(r *fw.Run) {
+	defer fw.FirstCallOrders(r, r.ID, FirstCalls(), nil)
 	depth := r.Pick(3, 4)
 	ops := modedit.ModOps(r.Thorough())
 	wops := modedit.WorkOps(r.Thorough())
